@@ -507,6 +507,22 @@ struct ModelChecks {
             R.count("rebuild_pair_without_reference|" + c.name + "|" + tn);
             R.list("rebuild_pair_without_reference",
                    c.name + " " + tn + " " + gt.nu_class + ": " + ref.why + (mu2 != mu2 ? " (library returns NaN)" : ""));
+            // A reported (E, M) pair in which rounding left E one ulp above M (a nu = 0 material) has no exact
+            // solution, but it is still the model's own pair: the rebuilt material must be a material (finite moduli)
+            // and, the square root of the vanishing discriminant aside, the same one: mu within sqrt(eps)-level of the
+            // original, lambda within the same absolute tolerance of zero.
+            if (std::string(ref.why).rfind("E>M", 0) == 0) {
+              const T mu0 = origin_rep[kG];
+              const double tol = 8.0 * std::sqrt(static_cast<double>(std::numeric_limits<T>::epsilon()));
+              const bool finite = mu2 == mu2 && la2 == la2 && !std::isinf(static_cast<long double>(mu2)) && !std::isinf(static_cast<long double>(la2));
+              R.eval();
+              if (!finite || !(std::fabs(static_cast<double>((mu2 - mu0) / mu0)) <= tol) || !(std::fabs(static_cast<double>(la2 / mu0)) <= tol)) {
+                R.violation(key + "|" + gt.nu_class + "|reported-pair-with-E-above-M|" + tn,
+                            J().s("constructor", c.name).s("numeric_type", tn).num("reported_first", a).num("reported_second", b)
+                                .num("original_shear_modulus", mu0).num("rebuilt_shear_modulus", mu2).num("rebuilt_lame_first_modulus", la2).str());
+              }
+              R.count("rebuild_E_above_M_checked_finite|" + tn);
+            }
             return;
           }
           R.count("rebuild|" + c.name + "|" + tn);
